@@ -338,6 +338,41 @@ Section P.
       + destruct (Nat.eq_dec k e1) as [->|Hnk]; [exact Hsm1|]. apply Hmid. lia.
       + apply Hmid. lia.
   Qed.
+
+  (* ------------------------------------------------------------------ C20: tokens touched by recovery *)
+  Hypothesis ps_bounded : forall p, match ps p with SOk _ p' => p' <= ntok | SErr _ p' => p' <= ntok end.
+
+  Lemma sync_le : forall f p, p <= ntok -> sync f p <= ntok.
+  Proof.
+    induction f as [|f IH]; intros p Hp; cbn [Loops.sync]; [exact Hp|].
+    destruct (in_range p) eqn:Hr; [|exact Hp]. apply in_range_lt in Hr.
+    destruct (is_semi p); [lia|]. destruct (starts_stmt p); [lia|]. apply IH. lia.
+  Qed.
+
+  (* with the code's resume rule every token is touched at most three times: recovery is linear in the number of
+     tokens whatever the statement parser answers and wherever the errors are *)
+  Theorem recover_work_linear : forall fuel pos, pos <= ntok ->
+    rwork tree ntok is_eof is_semi starts_stmt ps resume_code fuel pos <= 3 * (ntok - pos).
+  Proof.
+    induction fuel as [|f IH]; intros pos Hp; cbn [Loops.rwork]; [lia|].
+    destruct (in_range pos) eqn:Hr; [|lia]. pose proof (in_range_lt _ Hr) as Hlt.
+    destruct (is_semi pos).
+    - specialize (IH (S pos) ltac:(lia)). lia.
+    - pose proof (ps_bounded pos) as Hb. destruct (ps pos) as [t p'|c p'] eqn:Hps.
+      + pose proof (ps_progress _ _ _ Hps) as Hpr. pose proof (skip_semi_ge p') as Hge.
+        assert (Hsk : skip_semi p' <= ntok).
+        { unfold Loops.skip_semi. destruct (p' <? ntok) eqn:Hl; cbn [andb].
+          - apply Nat.ltb_lt in Hl. destruct (is_semi p'); lia.
+          - lia. }
+        specialize (IH (skip_semi p') Hsk). lia.
+      + pose proof (ps_mono _ _ _ Hps) as Hm. cbv zeta.
+        assert (Hres : resume_code pos p' = if p' =? pos then S pos else p') by reflexivity. rewrite Hres. clear Hres.
+        destruct (Nat.eqb_spec p' pos) as [->|Hne].
+        * pose proof (sync_ge ntok (S pos)) as Hg. pose proof (sync_le ntok (S pos) ltac:(lia)) as Hl.
+          specialize (IH (sync ntok (S pos)) Hl). lia.
+        * pose proof (sync_ge ntok p') as Hg. pose proof (sync_le ntok p' Hb) as Hl.
+          specialize (IH (sync ntok p') Hl). lia.
+  Qed.
 End P.
 
 (* ------------------------------------------------------------------ C07: batch calls *)
@@ -432,3 +467,12 @@ Proof.
   - apply Forall_forall. intros q Hq. apply repeat_spec in Hq. subst q. reflexivity.
   - vm_compute. reflexivity.
 Qed.
+
+(* going back into the failed statement instead (resume one token past its start) makes recovery re-read the rest of a
+   long malformed statement from every inner statement keyword: on one statement with 40 statement keywords (161 tokens)
+   the code's rule touches 162 tokens, the restart rule 3480 (more than 20 per token; it grows with the square) *)
+Lemma restart_work_quadratic_refuted :
+  run_rwork false (chain_kinds 40) (chain_tbl 40) = 162 /\
+  run_rwork true (chain_kinds 40) (chain_tbl 40) = 3480 /\
+  20 * length (chain_kinds 40) < run_rwork true (chain_kinds 40) (chain_tbl 40).
+Proof. vm_compute. repeat split. lia. Qed.
